@@ -261,22 +261,47 @@ def prior_reuse_oracle(ctx, res, stats, rng, n_inputs):
         seq = ["linear", "logarithmic", "linear", "logarithmic"]
         meths = [str(rng.choice(["inside_outside", "maximization"])) for _ in seq]
         replay = dict(kind="reuse", ts=gen.ts_to_jsonable(ts), mu=repr(mu), Ne=Ne, seq=seq, methods=meths)
-        for space, meth in zip(seq, meths):
-            try:
-                a = tsdate.date(ts, method=meth, mutation_rate=mu, priors=shared, probability_space=space)
-                b = tsdate.date(ts, method=meth, mutation_rate=mu, priors=tsdate.build_prior_grid(ts, population_size=Ne),
-                                probability_space=space)
-            except Exception as e:  # noqa: BLE001
-                stats["reuse_exceptions"][type(e).__name__] = stats["reuse_exceptions"].get(type(e).__name__, 0) + 1
-                continue
+        for step, (space, meth) in enumerate(zip(seq, meths)):
+            def call(pri):
+                try:
+                    return tsdate.date(ts, method=meth, mutation_rate=mu, priors=pri, probability_space=space), None
+                except Exception as e:  # noqa: BLE001
+                    return None, f"{type(e).__name__}: {str(e)[:100]}"
+            # the SAME object on every step vs a prior built afresh for this step
+            a, ea = call(shared)
+            b, eb = call(tsdate.build_prior_grid(ts, population_size=Ne))
             res.evaluations += 2
+            rp = dict(replay, step=step, space=space, method=meth)
+            if eb is not None:
+                # the fresh-prior run itself raises: data, but the reuse run must then raise the same way
+                stats["reuse_exceptions"][eb.split(":")[0]] = stats["reuse_exceptions"].get(eb.split(":")[0], 0) + 1
+                if ea is None or ea.split(":")[0] != eb.split(":")[0]:
+                    res.violations.append(Violation(
+                        "prior-reuse-changes-result",
+                        f"step {step} {meth}({space}): fresh prior raises {eb} but the reused prior object gives {ea or 'a result'}", rp))
+                continue
+            if ea is not None:
+                res.violations.append(Violation(
+                    "prior-reuse-run-raises",
+                    f"step {step} of {list(zip(meths, seq))}: {meth}(probability_space={space}) with the reused prior object "
+                    f"(left in {'LOG' if step and seq[step - 1] == 'logarithmic' else 'LIN'} space by the previous run) raises {ea}, "
+                    "while the same call with a fresh prior returns normally", rp))
+                # put the shared object back into a defined state so that later steps are still informative
+                shared = tsdate.build_prior_grid(ts, population_size=Ne)
+                continue
+            # B: BeliefPropagation.__init__ forces the prior object into the likelihood's space (model: force_space)
+            if shared.probability_space != space:
+                res.corr_failures.append(Violation(
+                    "prior-space-not-forced",
+                    f"after {meth}(probability_space={space}) the prior object is in {shared.probability_space} space; "
+                    "the model's force always ends in the target space", rp, stage="B"))
             ta, tb = a.nodes_time, b.nodes_time
             err = float(np.max(np.abs(ta - tb) / np.maximum(np.abs(tb), 1e-300))) if ta.size else 0.0
             stats["reuse_max_rel_err"] = max(stats["reuse_max_rel_err"], err)
             if not np.allclose(ta, tb, rtol=1e-9, atol=0):
                 res.violations.append(Violation(
                     "prior-reuse-changes-result",
-                    f"{meth}({space}) with a reused prior object differs from a fresh prior by rel. {err:.3g}", replay))
+                    f"{meth}({space}) with a reused prior object differs from a fresh prior by rel. {err:.3g}", rp))
         shared.force_probability_space("linear")
         g1 = np.array(shared.grid_data)
         gerr = float(np.max(np.abs(g1 - g0) / np.maximum(np.abs(g0), 1e-300)))
@@ -346,5 +371,27 @@ def replay(ctx, payload):
         for nt in THREADS:
             print(f"num_threads={nt}: {len(outs[nt])} keys, equal to None: {outs[nt] == outs[None]}")
         return all(outs[nt] == outs[None] for nt in THREADS)
+    if d["kind"] == "reuse":
+        import tsdate
+        ts = gen.ts_from_jsonable(d["ts"])
+        mu, Ne = float(d["mu"]), d["Ne"]
+        shared = tsdate.build_prior_grid(ts, population_size=Ne)
+        ok = True
+        for step, (space, meth) in enumerate(zip(d["seq"], d["methods"])):
+            outs = []
+            for pri in (shared, tsdate.build_prior_grid(ts, population_size=Ne)):
+                try:
+                    r = tsdate.date(ts, method=meth, mutation_rate=mu, priors=pri, probability_space=space)
+                    outs.append(r.nodes_time)
+                except Exception as e:  # noqa: BLE001
+                    outs.append(f"{type(e).__name__}: {str(e)[:80]}")
+            same = (isinstance(outs[0], str) == isinstance(outs[1], str)) and \
+                (isinstance(outs[0], str) or np.allclose(outs[0], outs[1], rtol=1e-9, atol=0))
+            print(f"step {step} {meth}({space}): reused -> {outs[0] if isinstance(outs[0], str) else 'result'}; "
+                  f"fresh -> {outs[1] if isinstance(outs[1], str) else 'result'}; agree: {same}; prior object now in {shared.probability_space}")
+            ok = ok and same
+            if isinstance(outs[0], str):
+                shared = tsdate.build_prior_grid(ts, population_size=Ne)
+        return ok
     print("replay of", d["kind"], "is not supported; rerun the check with the same VERIF_SEED")
     return False
